@@ -123,6 +123,17 @@ LegalStruct(env, kinds, ms) ==
     /\ RulePositiveSize(ms)
     /\ RuleByteOnlyInArray(ms)
 
+\* names of the struct rules an (illegal) member list violates
+StructViolations(env, kinds, ms) ==
+    (IF RuleNonEmpty(ms) THEN {} ELSE {"non-empty"})
+    \cup (IF RuleUnlimitedLast(kinds, ms) THEN {} ELSE {"unlimited-only-last"})
+    \cup (IF RuleNoDynInSizedArray(kinds, ms) THEN {} ELSE {"no-dynamic-in-fixed-or-limited-array"})
+    \cup (IF RuleNoUnlimitedInArray(kinds, ms) THEN {} ELSE {"no-unlimited-in-array"})
+    \cup (IF RuleNoDynInOptional(kinds, ms) THEN {} ELSE {"no-dynamic-in-optional"})
+    \cup (IF RuleSizer(env, ms) THEN {} ELSE {"sizer-before-array-integer-not-optional"})
+    \cup (IF RulePositiveSize(ms) THEN {} ELSE {"positive-array-size"})
+    \cup (IF RuleByteOnlyInArray(ms) THEN {} ELSE {"bytes-only-as-array"})
+
 \* "Union arm may not contain unlimited nor dynamic struct, nor array."
 RuleArmFixed(kinds, arms) ==
     \A a \in 1..Len(arms) : RefKind(kinds, arms[a].t) = FIXED /\ arms[a].t.k # "byte"
@@ -132,6 +143,11 @@ LegalUnion(kinds, arms) ==
     /\ arms # <<>>
     /\ RuleArmFixed(kinds, arms)
     /\ RuleUniqueDiscriminators(arms)
+
+UnionViolations(kinds, arms) ==
+    (IF arms # <<>> THEN {} ELSE {"non-empty"})
+    \cup (IF RuleArmFixed(kinds, arms) THEN {} ELSE {"union-arm-fixed"})
+    \cup (IF RuleUniqueDiscriminators(arms) THEN {} ELSE {"unique-discriminators"})
 
 LegalEnum(vals) ==
     /\ vals # <<>>
